@@ -63,7 +63,8 @@ INTENDED_INVS = ["Inv_RoundTripOn", "Inv_SatOn", "Inv_NoException", "Inv_Termina
 FAITHFUL_INVS = ["F_Clean", "Inv_Terminates", "Inv_MarkerIffBack", "Inv_O1Homogeneous", "Lemma_Conservative"]
 FSM_INVS = ["Fsm_Deterministic", "Fsm_Total", "Fsm_Sound", "Fsm_Maximal", "Fsm_Functional", "Fsm_ForkNodes",
             "Fsm_NoNestedLabels"]
-SPEC_MUTANTS = {"no_guard": "Inv_Terminates", "union_drops_last": "Inv_RoundTripOn", "abc_too_narrow": "Inv_RoundTripOn"}
+SPEC_MUTANTS = {"no_guard": "Inv_Terminates", "union_drops_last": "Inv_RoundTripOn", "abc_too_narrow": "Inv_RoundTripOn",
+                "meta_leaf_only": "F_Clean"}
 
 CFG = """SPECIFICATION Spec
 CONSTANTS
@@ -101,6 +102,35 @@ class XWorld(World):
         class E(enum.Enum):
             a = 1
             b = 2
+
+        class DerivedEnumMeta(enum.EnumMeta):       # Django's ChoicesType pattern: the metaclass of the Enum
+            pass                                    # merely INHERITS __len__ / __iter__ / __contains__ / __dir__
+
+        class E2(enum.Enum, metaclass=DerivedEnumMeta):
+            a = 1
+            b = 2
+
+        class M1(type):                             # a metaclass that makes the CLASS OBJECT a collection ...
+            def __len__(cls):
+                return 0
+
+            def __iter__(cls):
+                return iter(())
+
+            def __contains__(cls, x):
+                return False
+
+            def __dir__(cls):                       # ... and advertises that in dir(cls), as EnumType does
+                return list(super().__dir__()) + ["__len__", "__iter__", "__contains__"]
+
+        class M2(M1):                               # nothing of its own: type(MC2).__dict__ has none of the dunders
+            pass
+
+        class MC1(metaclass=M1):
+            pass
+
+        class MC2(metaclass=M2):
+            pass
 
         class USet(cabc.Set):
             def __init__(s, it):
@@ -274,7 +304,7 @@ class XWorld(World):
         def func(x: int, y) -> str:
             return ""
 
-        mine = dict(E=E, USet=USet, USetNe=USetNe, UMSeq=UMSeq, UMMap=UMMap, UMapNe=UMapNe, DSeq=DSeq, DMap=DMap,
+        mine = dict(E=E, E2=E2, MC1=MC1, MC2=MC2, USet=USet, USetNe=USetNe, UMSeq=UMSeq, UMMap=UMMap, UMapNe=UMapNe, DSeq=DSeq, DMap=DMap,
                     MyList=MyList, USized=USized, UCont=UCont, URev=URev, UItor=UItor)
         for k, c in mine.items():
             c.__name__ = c.__qualname__ = f"{k}_{n}"
@@ -291,8 +321,8 @@ class XWorld(World):
             "OrderedDict": collections.OrderedDict, "Counter": collections.Counter, "ChainMap": collections.ChainMap,
             "mappingproxy": types.MappingProxyType, "range": range, "func": types.FunctionType,
         }
-        self.classes = {**self.classes, "E": E, "USet": USet}      # class objects TypeObj(...) may denote
-        self.atoms = {"E": E.a, "func": func, "USized": USized(), "UCont": UCont(), "URev": URev(), "UItor": UItor()}
+        self.classes = {**self.classes, "E": E, "E2": E2, "MC2": MC2, "USet": USet}      # class objects TypeObj(...) may denote
+        self.atoms = {"E": E.a, "E2": E2.a, "MC1": MC1(), "MC2": MC2(), "func": func, "USized": USized(), "UCont": UCont(), "URev": URev(), "UItor": UItor()}
 
     MUTABLE = ("list", "deque", "dict", "OrderedDict", "defaultdict")
 
@@ -492,7 +522,9 @@ def _has_multiset(o):
     return any(_has_multiset(c) for c in subobjs(o))
 
 
-LABEL = {"E": "Enum member", "USetNe": "user Set defining __ne__", "DSeq": "duck-typed Sequence (no Sequence base)",
+LABEL = {"E": "Enum member", "E2": "member of an Enum with a derived metaclass",
+         "MC1": "instance of a class whose metaclass defines the collection dunders",
+         "MC2": "instance of a class whose parent metaclass defines the collection dunders", "USetNe": "user Set defining __ne__", "DSeq": "duck-typed Sequence (no Sequence base)",
          "DMap": "duck-typed Mapping (no Mapping base)", "Counter": "Counter with non-int values"}
 
 
@@ -810,15 +842,16 @@ def precheck(rep, meta, w):
     bad = []
     for c, m in meta["methods"].items():
         cls = w.cls_of[c]
-        inst, met = set(), set()
+        inst, met, inh = set(), set(), set()
         for a in set(dir(cls)) & alpha:
             v = inspect.getattr_static(cls, a)
             if not callable(v) or v is getattr(object, a, None):
                 continue
-            (inst if any(a in b.__dict__ for b in cls.__mro__) else met).add(a)
-        if inst != set(m["inst"]) or met != set(m["meta"]):
-            bad.append(f"methods of {c}: spec inst={sorted(m['inst'])} meta={sorted(m['meta'])}; real inst={sorted(inst)} "
-                       f"meta={sorted(met)}")
+            # defined for the instances / by the metaclass itself / inherited by the metaclass from a parent metaclass
+            (inst if any(a in b.__dict__ for b in cls.__mro__) else met if a in type(cls).__dict__ else inh).add(a)
+        if inst != set(m["inst"]) or met != set(m["meta"]) or inh != set(m["metainh"]):
+            bad.append(f"methods of {c}: spec inst={sorted(m['inst'])} meta={sorted(m['meta'])} metainh={sorted(m['metainh'])}; "
+                       f"real inst={sorted(inst)} meta={sorted(met)} metainh={sorted(inh)}")
     w._tables()
     abc_by_name = {v: k for k, v in w._abc_name.items()}
     abc_by_name["Callable"] = cabc.Callable
@@ -900,6 +933,66 @@ def zoo(w):
         a = 1
         b = 2
 
+    # derived metaclasses: the collection dunders of the CLASS OBJECT come from a non-leaf metaclass
+    class ChoicesMeta(enum.EnumMeta):
+        pass
+
+    class Colour(enum.Enum, metaclass=ChoicesMeta):
+        RED = 1
+        BLUE = 2
+
+    class Suit(enum.IntEnum, metaclass=ChoicesMeta):
+        HEART = 1
+
+    class DFlag(enum.Flag, metaclass=ChoicesMeta):
+        a = 1
+
+    class ZM1(type):
+        def __len__(cls):
+            return 0
+
+        def __iter__(cls):
+            return iter(())
+
+        def __contains__(cls, x):
+            return False
+
+        def __dir__(cls):
+            return list(super().__dir__()) + ["__len__", "__iter__", "__contains__"]
+
+    class ZM2(ZM1):
+        pass
+
+    class ZM3(ZM2):
+        def __call__(cls, *a, **kw):                # a leaf metaclass with a non-empty __dict__ of its own
+            return super().__call__(*a, **kw)
+
+    class ZQuiet(type):                             # defines the dunders but does not advertise them in dir(cls)
+        def __len__(cls):
+            return 0
+
+        def __iter__(cls):
+            return iter(())
+
+        def __contains__(cls, x):
+            return False
+
+    class ZQuiet2(ZQuiet):
+        pass
+
+    class Deep3(metaclass=ZM3):
+        pass
+
+    class Quiet2(metaclass=ZQuiet2):
+        pass
+
+    class SizedDeep(metaclass=ZM2):                 # the instances really are Sized; the class object is a collection
+        def __len__(self):
+            return 0
+
+    for c in (Colour, Suit, DFlag, Deep3, Quiet2, SizedDeep):
+        c.__name__ = c.__qualname__ = f"{c.__name__}_{n}"
+
     P = collections.namedtuple(f"P_{n}", "x y")
 
     class MyStr(str):
@@ -951,7 +1044,17 @@ def zoo(w):
         ("str subclass", lambda: MyStr("ab")), ("empty str subclass", lambda: MyStr("")),
         ("int subclass", lambda: MyInt(1)), ("tuple subclass", lambda: MyTuple((1, "a"))),
         ("empty tuple subclass", lambda: MyTuple(())), ("dict subclass", lambda: MyDict(a=1)),
-        ("Flag member", lambda: Fl.a), 
+        ("Flag member", lambda: Fl.a),
+        ("member of an Enum with a derived EnumMeta", lambda: Colour.RED),
+        ("list of members of an Enum with a derived EnumMeta", lambda: [Colour.RED, Colour.BLUE]),
+        ("dict value member of an IntEnum with a derived EnumMeta", lambda: {"k": Suit.HEART}),
+        ("root tuple with a member of an Enum with a derived EnumMeta", lambda: (1, Colour.BLUE)),
+        ("member of a Flag with a derived EnumMeta", lambda: DFlag.a),
+        ("instance of a class with a 3-deep metaclass chain", lambda: Deep3()),
+        ("set of instances of a class with a 3-deep metaclass chain", lambda: {Deep3()}),
+        ("instance of a class whose parent metaclass defines unadvertised dunders", lambda: Quiet2()),
+        ("Sized instance of a class whose parent metaclass is a collection", lambda: SizedDeep()),
+        ("class object with a derived collection metaclass", lambda: Deep3), 
         ("bytes", lambda: b"ab"), ("bytearray", lambda: bytearray(b"ab")), ("memoryview", lambda: memoryview(b"ab")),
         ("array", lambda: array.array("i", [1, 2])), ("UserList", lambda: collections.UserList([1, "a"])),
         ("UserDict", lambda: collections.UserDict({1: "a"})), ("slice", lambda: slice(1, 2)),
@@ -1053,6 +1156,14 @@ def run_models(rep, tier, d, rows_dir):
                          heap="8g"),
     }
     for m, inv in SPEC_MUTANTS.items():
+        if inv == "F_Clean":
+            # a mutant the repaired "duck" design would mask (its back-off to the deepest ABC the object really is an
+            # instance of): judged on the design that trusts the automaton, where every failure outside the duck-typed
+            # classes is unexplained
+            jobs["mutant_" + m] = dict(cfg=_cfg(d, f"mut_{m}.cfg", "nv", legacy=("duck",), specmut=m,
+                                                invs=["F_Clean"] + [i for i in FAITHFUL_INVS if i != "F_Clean"]),
+                                       workers=2, heap="2g")
+            continue
         jobs["mutant_" + m] = dict(cfg=_cfg(d, f"mut_{m}.cfg", "nv", legacy=(), specmut=m,
                                             invs=[inv] + [i for i in INTENDED_INVS if i != inv]), workers=2, heap="2g")
 
